@@ -609,7 +609,7 @@ def run(ctx):
         pk = [c for c in corp if c.get("kind") == "packet"]
         if pk:
             check_packets(ctx, pk)
-        check_direct(ctx, [gen_case(rng, False) for _ in range(ctx.scale(8000, 400000))])
+        check_direct(ctx, [gen_case(rng, False) for _ in range(ctx.scale(8000, 600000))])
         if ctx.thorough:   # azimuth swept in 1 degree steps
             sweep = []
             for az in range(360):
